@@ -255,7 +255,7 @@ class Unit:
         cst = hash_files(files_under(os.path.join(VERIF, 'cstl')) + files_under(os.path.join(VERIF, 'contracts'), {'.h'}))
         common = file_bytes(os.path.join(self.gen, 'gen_common.h'))
         hdr = file_bytes(os.path.join(self.gen, self.info['cname'] + '.h'))
-        return sha(self.id, contracts_text, cst, common, hdr, self.harness(), ' '.join(CBMC_CHECKS), 'v4')
+        return sha(self.id, contracts_text, cst, common, hdr, self.harness(), ' '.join(CBMC_CHECKS), 'v4' + ('cov2' if self.lockcov else ''))
 
 
 PREAMBLE = '''
@@ -278,10 +278,10 @@ COV_DEF = '''
 '''
 
 
-def contracts_source(gen, info, spec, lockcov=False, extra_requires=None):
+def contracts_source(gen, info, spec, lockcov=False, extra_requires=None, only=None):
     sub = gen if not lockcov else gen + '_lockcov'
     csrc = open(os.path.join(sub, info['cname'] + '.c')).read()
-    text, linemap, missing = specparse.insert_contracts(csrc, spec, [spec.header], extra_requires)
+    text, linemap, missing = specparse.insert_contracts(csrc, spec, [spec.header], extra_requires, only)
     if missing:
         raise Undecided('contract anchor missing: %s has contracts for functions that no longer exist: %s' % (spec.container, ', '.join(missing)))
     return text, linemap
@@ -345,7 +345,7 @@ def classify(res, unit, linemap, srcname):
 
 def run_unit(unit, want_trace=False):
     """returns result dict (cached)"""
-    text, linemap = contracts_source(unit.gen, unit.info, unit.spec, unit.lockcov, unit.extra_requires())
+    text, linemap = contracts_source(unit.gen, unit.info, unit.spec, unit.lockcov, unit.extra_requires(), set([unit.fn] + unit.replaced()))
     key = unit.key(text)
     udir = os.path.join(BUILD, 'units', key)
     resf = os.path.join(udir, 'result.json')
@@ -360,7 +360,7 @@ def run_unit(unit, want_trace=False):
     os.makedirs(udir, exist_ok=True)
     srcname = unit.info['cname'] + '.contracts.c'
     open(os.path.join(udir, srcname), 'w').write(text)
-    hsrc = '#include "%s"\n%s%s\n%s\n' % (srcname, COV_DEF if unit.lockcov else '', PREAMBLE, unit.harness())
+    hsrc = '%s#include "%s"\n%s\n%s\n' % (COV_DEF if unit.lockcov else '', srcname, PREAMBLE, unit.harness())
     open(os.path.join(udir, 'h.c'), 'w').write(hsrc)
     gen = unit.gen if not unit.lockcov else unit.gen + '_lockcov'
     inc = ['-I' + os.path.join(VERIF, 'cstl'), '-I' + os.path.join(VERIF, 'contracts'), '-I' + gen, '-I' + udir]
